@@ -341,15 +341,20 @@ Proof.
     unfold is_open_tok. rewrite EO. split; [exact W3|]. split; [congruence|]. split; lia. }
   unfold is_open_tok in *. rewrite EO in *.
   destruct (ty =? tok_CLOSE) eqn:EC.
-  { destruct (Z.ltb_spec 0 (u_discard fr c2)) as [Hp|Hn].
+  { destruct (hd_close_fatal _ _); [discriminate|]. destruct (Z.ltb_spec 0 (u_discard fr c2)) as [Hp|Hn].
     - inversion E; subst. unfold uwfc, uopen_depth, uw_stack in *. cbn [u_discard u_stack u_inOpen u_vocab u_objctr] in *.
       destruct W2 as (Hd2 & Hr2). split; [split; [lia|exact Hr2]|]. split; [congruence|]. split; lia.
     - apply upre_ok in E as (es4 & E & _). destruct (close_depth _ _ _ _ W2 E) as ((W3 & V3 & O3) & I3 & D3).
       split; [exact W3|]. split; [congruence|]. split; lia. }
   destruct (ty =? tok_ABORT).
-  { destruct rej; [apply (same _ _ E)|]. apply upre_ok in E as (es4 & E & _).
-    destruct (hv_depth _ _ _ _ _ W2 E) as ((W3 & V3 & O3) & I3 & D3).
-    split; [exact W3|]. split; [congruence|]. split; lia. }
+  { destruct rej; [apply (same _ _ E)|]. revert E. destruct hd_abort_in_index; intros E; apply upre_ok in E as (es4 & E & _).
+    - destruct (uhandle_violation c2 (u_inOpen fr c2) false) as [c3 es3|] eqn:EV; [|discriminate]. inversion E; subst.
+      destruct (hv_depth _ _ _ _ _ W2 EV) as ((W3 & V3 & O3) & I3 & D3).
+      split; [exact W3|]. split; [unfold uw_inOpen; cbn [u_vocab]; congruence|].
+      split; [|unfold uw_inOpen; cbn [u_objctr]; lia].
+      unfold uopen_depth, uw_inOpen in *. cbn [u_discard u_stack u_inOpen]. rewrite I3 in D3. destruct (u_inOpen fr c2); lia.
+    - destruct (hv_depth _ _ _ _ _ W2 E) as ((W3 & V3 & O3) & I3 & D3).
+      split; [exact W3|]. split; [congruence|]. split; lia. }
   destruct (ty =? tok_INT). { destruct rej; [apply (same _ _ E)|apply (deliv _ _ _ E)]. }
   destruct (ty =? tok_NEG). { destruct rej; [apply (same _ _ E)|apply (deliv _ _ _ E)]. }
   destruct (ty =? tok_VOCAB).
@@ -445,7 +450,8 @@ Proof.
     + cbn [u_inOpen u_discard u_stack uw_inOpen uw_stack] in E. inversion E; subst.
       cbn [u_inOpen u_discard u_stack u_vocab uw_inOpen uw_stack]. repeat split; auto. intros e [].
     + destruct (ty =? tok_CLOSE).
-      { destruct (Z.ltb_spec 0 (u_discard fr c)); [|lia]. inversion E; subst. cbn [u_inOpen u_discard u_stack u_vocab uw_stack].
+      { rewrite IO in E. unfold hd_close_fatal in E. cbn [andb] in E.
+        destruct (Z.ltb_spec 0 (u_discard fr c)); [|lia]. inversion E; subst. cbn [u_inOpen u_discard u_stack u_vocab uw_stack].
         repeat split; auto; try lia. intros e []. }
       assert (same : forall es0, UOk fr c es0 = UOk fr c' es -> es0 = [] ->
                 u_stack fr c' = u_stack fr c /\ u_inOpen fr c' = false /\ u_discard fr c' = u_discard fr c + 0 /\
@@ -590,8 +596,10 @@ Proof.
     pose proof (hv_clean c1 (u_inOpen fr c1) false) as H. destruct (uhandle_violation c1 _ _); exact H. }
   match goal with |- hr_clean (match ?T with TsFatal _ _ => _ | TsGo _ _ _ _ => _ end) => destruct T as [esf|c2 es2 rej] end; [exact HT|].
   destruct (ty =? tok_OPEN). { destruct rej; [destruct (u_inOpen fr _)|]; exact HT. }
-  destruct (ty =? tok_CLOSE). { destruct (0 <? _); [exact HT|]. apply upre_clean; [exact HT|apply close_clean]. }
-  destruct (ty =? tok_ABORT). { destruct rej; [exact HT|]. apply upre_clean; [exact HT|apply hv_clean]. }
+  destruct (ty =? tok_CLOSE). { destruct (hd_close_fatal _ _); [apply no_escape_app; [exact HT|apply ufatal_no_escape]|]. destruct (0 <? _); [exact HT|]. apply upre_clean; [exact HT|apply close_clean]. }
+  destruct (ty =? tok_ABORT).
+  { destruct rej; [exact HT|]. destruct hd_abort_in_index; (apply upre_clean; [exact HT|]); [|apply hv_clean].
+    pose proof (hv_clean c2 (u_inOpen fr c2) false) as H. destruct (uhandle_violation c2 (u_inOpen fr c2) false); exact H. }
   destruct (ty =? tok_INT). { destruct rej; [exact HT|]. apply upre_clean; [exact HT|apply deliver_clean]. }
   destruct (ty =? tok_NEG). { destruct rej; [exact HT|]. apply upre_clean; [exact HT|apply deliver_clean]. }
   destruct (ty =? tok_VOCAB).
@@ -785,8 +793,10 @@ Proof.
     pose proof (hv_J c1 (u_inOpen fr c1) false H1) as K. destruct (uhandle_violation c1 _ _); [exact K|exact I]. }
   match goal with |- hrJ (match ?T with TsFatal _ _ => _ | TsGo _ _ _ _ => _ end) => destruct T as [esf|c2 es2 rej] end; [exact I|].
   destruct (ty =? tok_OPEN). { destruct rej; [destruct (u_inOpen fr _)|]; exact HT. }
-  destruct (ty =? tok_CLOSE). { destruct (0 <? _); [exact HT|]. apply upre_J, close_J; exact HT. }
-  destruct (ty =? tok_ABORT). { destruct rej; [exact HT|]. apply upre_J, hv_J; exact HT. }
+  destruct (ty =? tok_CLOSE). { destruct (hd_close_fatal _ _); [exact I|]. destruct (0 <? _); [exact HT|]. apply upre_J, close_J; exact HT. }
+  destruct (ty =? tok_ABORT).
+  { destruct rej; [exact HT|]. destruct hd_abort_in_index; apply upre_J; [|apply hv_J; exact HT].
+    pose proof (hv_J c2 (u_inOpen fr c2) false HT) as HJ2. destruct (uhandle_violation c2 (u_inOpen fr c2) false); exact HJ2. }
   destruct (ty =? tok_INT). { destruct rej; [exact HT|]. apply upre_J, deliver_J; exact HT. }
   destruct (ty =? tok_NEG). { destruct rej; [exact HT|]. apply upre_J, deliver_J; exact HT. }
   destruct (ty =? tok_VOCAB). { destruct (uvocab_get _ _); [|exact I]. destruct rej; [exact HT|]. apply upre_J, deliver_J; exact HT. }
